@@ -5,6 +5,7 @@ CONSTANTS
   ObeySet = {"all"}
   EASet = {"none"}
   WithInterrupt = FALSE
+  EarlyExit = TRUE
   Emit = FALSE
   MaxTicks = 1
 INIT LInit
